@@ -285,7 +285,6 @@ CORE9 = [sym for sym in CORE11 if sym not in ("PKS_KS", "Trans-AT_docking")]
 # is_starter_module, is_termination_module) or that duplicate another ignored class
 LEN4_DROPPED = ("PKS_KS:Iterative-KS", "Condensation_Starter", "PKS_Docking_Cterm", "Abhydrolase_1")
 PAIR12 = [sym for sym in CORE14 if sym not in ("Epimerization", "NRPS-COM_Nterm")]
-CORE8 = CORE7 + ["Cglyc"]
 CORE6 = ["AMP-binding", "PKS_KS:Trans-AT-KS", "ACP", "PKS_KR", "LPG_synthase_C", "Beta_elim_lyase"]
 
 STRAND_COMBOS = ((1, 1), (-1, -1), (1, -1), (-1, 1))
